@@ -415,6 +415,9 @@ class CFGraph:
         """
         vertices = set(data.get("vertices", []))
         edges = data.get("edges", [])
+        # A damaged file can hold a float (e.g. 1e5 or 1.5) where a multiplicity is expected
+        if any(not isinstance(edge[2], int) for edge in edges):
+            raise ValueError("Edge multiplicities must be integers")
         graph = cls(vertices, edges)
 
         return graph
